@@ -832,11 +832,17 @@ func (c *SpecCtx) call(e *SExpr) *Val {
 		return &Val{T: X.strOfBytes(c.state(), x.T, sl.Elem()), GT: types.Typ[types.String]}
 	case "visited":
 		// visited(x): element x has been handed to the callback by the Set.Each iteration being specified
-		if X.eachVisited == nil {
+		vis := X.eachVisited
+		if vis == nil {
+			if v, ok := c.Vars["visited~"]; ok {
+				vis = v.T // range over a map: the iterator's visited set
+			}
+		}
+		if vis == nil {
 			c.fail("visited() not available here")
 		}
 		x := c.eval(e.Args[0])
-		return &Val{T: ts.Select(X.eachVisited, x.T), GT: boolT}
+		return &Val{T: ts.Select(vis, x.T), GT: boolT}
 	}
 	if gm, ok := X.E.Specs.GhostMaps[e.Name]; ok {
 		return c.ghostMapRead(gm, e)
